@@ -150,7 +150,7 @@ def floors(tier):
 
 
 ROUTES = ['ctor_like', 'template', 'fxp_of', 'deepcopy', 'like', 'add', 'mul_const', 'out_like', 'neg', 'invert', 'and_mask', 'lshift', 'rshift', 'np_sum', 'm_sum',
-          'np_add', 'm_max', 'np_transpose', 'clip', 'equal', 'T', 'flatten', 'ravel', 'fxp_like', 'm_transpose', 'np_sort', 'abs', 'pos', 'conj', 'm_cumsum', 'np_diagonal', 'sub_const', 'rsub']
+          'np_add', 'm_max', 'np_transpose', 'clip', 'equal', 'T', 'flatten', 'ravel', 'fxp_like', 'm_transpose', 'np_sort', 'abs', 'pos', 'conj', 'm_cumsum', 'np_diagonal', 'sub_const', 'rsub', 'pow_const', 'div_const', 'mod_const', 'floordiv_const']
 MUTATIONS = ['write', 'indexed', 'flagging_write', 'reset', 'config', 'resize']
 
 
@@ -289,6 +289,19 @@ def run_case(case, ctx):
             B = _try(lambda: A - 1)
         elif route == 'rsub':
             B = _try(lambda: 1 - A)
+        elif route in ('pow_const', 'div_const', 'mod_const', 'floordiv_const'):
+            # operators with a plain constant: the operand - its configuration included - is the same afterwards (the frame judge sees the operator's event),
+            # and so is what a later constant operation on it gives
+            cfg0 = dict((k_, repr(v_)) for k_, v_ in A.config.__dict__.items())
+            later0 = _try(lambda: (A + 0.3).get_val())
+            B = _try(lambda: {'pow_const': lambda: A ** 2, 'div_const': lambda: A / 2, 'mod_const': lambda: A % 3, 'floordiv_const': lambda: A // 2}[route]())
+            cfg1 = dict((k_, repr(v_)) for k_, v_ in A.config.__dict__.items())
+            later1 = _try(lambda: (A + 0.3).get_val())
+            if cfg1 != cfg0 or not np.array_equal(np.asarray(later0), np.asarray(later1)):
+                ctx.violation('operand_changed', 'route %s: the operand\'s configuration changed (%s) / a later A + 0.3 gives %r instead of %r' % (
+                    route, sorted(k_ for k_ in cfg0 if cfg0[k_] != cfg1.get(k_)), later1, later0), key='frame.%s' % route)
+            if B is None:
+                B = _try(lambda: A * 2)        # (a power is not available for every value on this NumPy: the frame check above is what this route is for)
         if B is None or not isinstance(B, Fxp):
             ctx.violation('derivation_failed', 'route %s produced no object' % route)
             return
